@@ -107,6 +107,7 @@ def _request(draw, n_sites, strict, anchors, edge=False):
             # an M that is not a whole number of channels next to a free M: shape of a recorded finding
             slots = [[n, (m if m is None else per_m * max(1, m // per_m)), k] for n, m, k in slots]
     slots = [[n, m] for n, m, _ in slots]
+    far = False
     if strict:
         # enough bandwidth that every slot with a user-fixed M is needed (see module docstring, recorded finding)
         fixed_sum = sum(m for _, m in slots if m is not None)
@@ -114,11 +115,12 @@ def _request(draw, n_sites, strict, anchors, edge=False):
         nb_wl = lo + draw(st.sampled_from([0, 0, 0, 0, 0, 1, 2, 5]))
     else:
         nb_wl = draw(st.sampled_from([1, 1, 2, 2, 3, 4, 6, 8, 20, 60, 96, 120]))
-        if draw(st.integers(0, 39)) == 0:
+        if draw(st.sampled_from([True] + [False] * 39)):
             # a user-fixed N far outside any map
             k = draw(st.integers(0, n_slots - 1))
             slots[k][0] = draw(st.sampled_from([5000, -5000, 1200, -1500]))
-    if not edge and draw(st.integers(0, 3)) == 0 and all(m is None for _, m in slots):
+            far = True
+    if not edge and draw(st.sampled_from([True, False, False, False])) and all(m is None for _, m in slots):
         nb_wl = draw(st.sampled_from([24, 48, 60, 90, 96, 97, 120]))      # one request filling (most of) the band
     exact = draw(st.booleans())
     bw = nb_wl * MODES[mode][0] if exact else (nb_wl - 0.5) * MODES[mode][0]
@@ -133,13 +135,13 @@ def _request(draw, n_sites, strict, anchors, edge=False):
     return {'src': src, 'dst': dst, 'route': draw(st.integers(0, 5)), 'rev': draw(st.sampled_from([True, True, False])),
             'mode': mode, 'spacing': spacing, 'slots': slots, 'bw': bw, 'loader': loader,
             'omit_slots': n_slots == 1 and slots[0] == [None, None] and draw(st.booleans()),
-            'preblocked': (not edge) and draw(st.integers(0, 39)) == 0}
+            'far': far, 'preblocked': (not edge) and draw(st.sampled_from([True] + [False] * 39))}
 
 
 @st.composite
 def history_case(draw, strict):
     edges = draw(bandnets.band_edges(same_fmax=True))
-    with_l = draw(st.integers(0, 5)) == 0
+    with_l = draw(st.sampled_from([True] + [False] * 5))
     classes = draw(st.sampled_from([['auto'], ['auto', 'C', 'Cred'], ['auto', 'Cred', 'Cred2'], ['C', 'Cred', 'Cred2'],
                                     ['Cred', 'Cred2']]))
     if with_l:
@@ -484,9 +486,10 @@ def run(case, ctx):
             pths, rqs, rpths, metas = [], [], [], []
             for r in step['reqs']:
                 rid += 1
-                if case['strict'] and any(n is not None and not model.n_min <= n <= model.n_max for n, _ in r['slots']):
-                    # a user-fixed N outside the common map: shape of a recorded finding, excluded in the strict
-                    # sub-check (the extent of the map depends on the amplifiers auto-design picked)
+                if not r.get('far', True) and any(n is not None and not model.n_min <= n <= model.n_max for n, _ in r['slots']):
+                    # a user-fixed N outside the common map is the shape of a recorded finding: it is only fed on
+                    # purpose ('far', never in the strict sub-check); N drawn around the generated band edges are
+                    # moved into the map (its extent depends on the amplifiers auto-design picked)
                     r = dict(r, slots=[[n if n is None else min(max(n, model.n_min), model.n_max), m]
                                        for n, m in r['slots']])
                     ctx.label('excluded_known:fixed-N-outside-map-clamped')
